@@ -262,6 +262,25 @@ def r13_4_extractors(repo: Repo, rep: Report):
     rep.check("R13.4", ok, mu, ea, "T[]: head at 4+32*i, length at 4+offset, data at 4+offset+32, length*32 bytes", "array layout changed (equality must be element-wise over exactly `length` words)")
 
 
+def r13_8_extractor_helpers(repo: Repo, rep: Report):
+    rep.rule("R13.8", "bytes/string operands are the `length` bytes at the encoded offset, unmodified")
+    from hsa.origin import origin_text
+
+    m, fn = repo.fn("utils.extract_bytes_argument")
+    rets = [r for r in body_walk(fn) if isinstance(r, ast.Return) and r.value is not None]
+    texts = sorted(origin_text(m, fn, r.value).replace("$", "") for r in rets)
+    core = "extract_bytes(data, 4 + int_of(extract_word(data, 4 + arg_idx * 32), 'symbolic offset for bytes argument') + 32, int_of(extract_word(data, 4 + int_of(extract_word(data, 4 + arg_idx * 32), 'symbolic offset for bytes argument')), 'symbolic size for bytes argument'))"
+    want = sorted(["b''", f"bv_value_to_bytes({core}) if is_bv_value({core}) else {core}"])
+    alt = sorted(["b''", f"try_bv_value_to_bytes({core})"])
+    rep.check("R13.8", texts in (want, alt), m, fn, f"extract_bytes_argument returns {[t[:70] for t in texts]}", "the operand must be exactly the encoded bytes (offset word, length word, `length` bytes): stripping, truncating or padding it changes what assertEq/assertNotEq on bytes and strings compare (e.g. 'ab\\x00' == 'ab')")
+    bad = [c for c in body_walk(fn) if isinstance(c, ast.Call) and last_attr(c) in ("strip", "rstrip", "lstrip", "replace", "removesuffix", "removeprefix", "ljust", "rjust", "zfill")]
+    rep.check("R13.8", not bad, m, bad[0] if bad else fn, f"extract_bytes_argument: value-rewriting calls: {[src(c)[:40] for c in bad]}", "operand bytes rewritten")
+    m2, fs = repo.fn("utils.extract_string_argument")
+    rets = [origin_text(m2, fs, r.value).replace("$", "") for r in body_walk(fs) if isinstance(r, ast.Return) and r.value is not None]
+    ok = rets == ["extract_bytes_argument(data, arg_idx).decode('utf-8') if is_concrete(extract_bytes_argument(data, arg_idx)) else extract_bytes_argument(data, arg_idx)"]
+    rep.check("R13.8", ok, m2, fs, f"extract_string_argument returns {[t[:90] for t in rets]}", "string operand must be the decoded bytes argument, unmodified")
+
+
 def r13_5_branching(repo: Repo, rep: Report):
     rep.rule("R13.5", "vm.assert*: definite failure only on `check(cond) == unsat`; failing branch on `check(not cond) != unsat`; vm.assume appends a branching constraint")
     m, hf = repo.fn("cheatcodes.hevm_cheat_code.handle")
@@ -344,4 +363,4 @@ def r13_7_shared(repo: Repo, rep: Report):
     r20_1_fork_copies(repo, rep)
 
 
-RULES = [r13_7_shared, r13_1_selector_table, r13_2_mk_cond, r13_3_sign_and_arity, r13_4_extractors, r13_5_branching, r13_6_propagation]
+RULES = [r13_8_extractor_helpers, r13_7_shared, r13_1_selector_table, r13_2_mk_cond, r13_3_sign_and_arity, r13_4_extractors, r13_5_branching, r13_6_propagation]
